@@ -63,7 +63,7 @@ static sf_count_t	host_write_i2f	(SF_PRIVATE *psf, const int *ptr, sf_count_t le
 static sf_count_t	host_write_f	(SF_PRIVATE *psf, const float *ptr, sf_count_t len) ;
 static sf_count_t	host_write_d2f	(SF_PRIVATE *psf, const double *ptr, sf_count_t len) ;
 
-static void		float32_peak_update	(SF_PRIVATE *psf, const float *buffer, int count, sf_count_t indx) ;
+static void		float32_peak_update	(SF_PRIVATE *psf, const float *buffer, sf_count_t count, sf_count_t indx) ;
 
 static sf_count_t	replace_read_f2s	(SF_PRIVATE *psf, short *ptr, sf_count_t len) ;
 static sf_count_t	replace_read_f2i	(SF_PRIVATE *psf, int *ptr, sf_count_t len) ;
@@ -382,9 +382,9 @@ float32_be_write (float in, unsigned char *out)
 */
 
 static void
-float32_peak_update	(SF_PRIVATE *psf, const float *buffer, int count, sf_count_t indx)
+float32_peak_update	(SF_PRIVATE *psf, const float *buffer, sf_count_t count, sf_count_t indx)
 {	int 	chan ;
-	int		k, position ;
+	sf_count_t	k, position ;
 	float	fmaxval ;
 
 	for (chan = 0 ; chan < psf->sf.channels ; chan++)
